@@ -49,6 +49,8 @@ def gen_cases(rng, tier):
         for form in ('list', 'gen', 'tuple'):
             for n_ in ((5, 120) if tier != 'quick' or form != 'tuple' else (5,)):
                 cases.append({'kind': 'source', 'shape': shape, 'form': form, 'n': n_})
+    for form in ('list', 'gen'):
+        cases.append({'kind': 'source', 'shape': 'wide', 'form': form, 'n': 120})
     for i in range(max(6, n // 6)):
         cases.append({'kind': 'badlink', 'bad': rng.pick(['none', 'int', 'float', 'two_params', 'wrong_name', 'object_no_call']),
                       'depth': rng.randint(0, 2), 'pos': rng.randint(0, 2)})
@@ -301,6 +303,14 @@ def source_rows(case):
             items = items[::-1]
         elif case['shape'] == 'sparse' and j % 2 == 1:
             items = [kv for kv in items if kv[0] != 'name']
+        elif case['shape'] == 'wide':
+            # 150 further columns; 'name' has no value in the first 80 rows, 'amt' is null in rows 70-99: still inside the
+            # 100-row sample, which is 100 rows whatever the number of columns
+            if j < 80:
+                items[1] = ('name', None)
+            if 70 <= j < 100:
+                items[2] = ('amt', None)
+            items = items + [('w%03d' % q, j + q) for q in range(150)]
         rows.append(dict(items))
     return rows
 
@@ -383,8 +393,9 @@ def oracle(case, out):
         what = 'an in-line %s of %d dict rows (%s key order)' % (case['form'], case['n'], case['shape'])
         if 'error' in out:
             return '%s failed: %s' % (what, out['error'])
-        if out['fields'] != [list(x) for x in SOURCE_TYPES]:
-            return '%s is described as %r, its columns are %r' % (what, out['fields'], SOURCE_TYPES)
+        want_fields = [list(x) for x in SOURCE_TYPES] + ([['w%03d' % q, 'integer'] for q in range(150)] if case['shape'] == 'wide' else [])
+        if out['fields'] != want_fields:
+            return '%s is described as %r, its columns are %r' % (what, [f for f in out['fields'] if f not in want_fields][:6] or out['fields'][:8], want_fields[:8])
         rows = source_rows(case)
         got = rows_dec(out['rows'])
         if out['nres'] != 1 or len(got) != len(rows) or any(any(g.get(k) != r.get(k) for k, _ in SOURCE_TYPES) for g, r in zip(got, rows)):
